@@ -161,6 +161,16 @@ def make_ext_modules(I):
       simplefilter=F('warnings.simplefilter', lambda I, *a, **k: None),
       filterwarnings=F('warnings.filterwarnings', lambda I, *a, **k: None))
 
+    # ---- contextlib: generator-based context managers (run by the with statement, see Interp.with_generator_context)
+    def contextmanager(I, func):
+        from .interp import GeneratorContext
+        from .values import VFunc
+        if not isinstance(func, VFunc):
+            raise Unsupported('contextmanager of a non-function')
+        b = F('contextmanager:' + func.name, lambda I2, *a, **k: GeneratorContext(func, a, k))
+        return b
+    M('contextlib', contextmanager=F('contextlib.contextmanager', contextmanager))
+
     # ---- abc / dataclasses / numbers / string
     obj = I.builtins['object']
     ABC = VClass('ABC', [obj], {}, builtin=True)
